@@ -221,7 +221,9 @@ func (r *remoteReplicator) IsReady() bool {
 		r.ResetReplicaIndex(needResetReplicaIdx)
 		r.state.Store(&state{state: models.ReplicatorReadyState})
 		return true
-	case remoteLastReplicaAckIdx > appendIdx:
+	case remoteLastReplicaAckIdx >= appendIdx:
+		// follower's last index >= next append index of current node, current node's log is behind the follower,
+		// (if ==, the next message would be stored at an index which the follower already holds).
 		// new write data will be lost, because leader's lost old wal data
 		r.ResetAppendIndex(nextReplicaIdx)
 		r.statistics.ResetAppendIdx.Incr()
